@@ -148,9 +148,11 @@ class P:
         return t
 
     def skip_param_attrs(s):
+        s.last_attrs = set()
         while True:
             k, v = s.peek()
             if k == 'word' and v in PARAM_ATTRS:
+                s.last_attrs.add(v)
                 s.next()
             elif k == 'word' and v in PARAM_ATTRS_ARG:
                 s.next()
@@ -247,6 +249,9 @@ FN_KW = {'dso_local', 'internal', 'linkonce_odr', 'weak_odr', 'hidden', 'private
          'signext', 'noalias', 'available_externally', 'weak', 'linkonce', 'dso_preemptable', 'protected', 'fastcc',
          'ccc', 'external'}
 
+PARAM_SIGNEXT = {}
+
+
 def parse_fn_header(p):
     while p.peek()[1] in FN_KW or p.peek()[1] in PARAM_ATTRS_ARG:
         if p.peek()[1] in PARAM_ATTRS_ARG:
@@ -269,6 +274,7 @@ def parse_fn_header(p):
                 if p.peek()[0] in ('id', 'qid'):
                     pn = p.next()[1]
                 params.append((t, pn))
+                PARAM_SIGNEXT.setdefault(id(params), []).append('signext' in p.last_attrs)
             if p.accept(')'): break
             p.expect(',')
     return ret, name, params, va, p
@@ -306,6 +312,7 @@ def parse_function(lines):
     toks = tokenize(hdr[:hdr.rindex('{')])
     p = P(toks); p.next()
     f.ret, f.name, f.params, f.va, _ = parse_fn_header(p)
+    f.signext = PARAM_SIGNEXT.pop(id(f.params), [False] * len(f.params))
     # number unnamed params
     cnt = 0
     ps = []
